@@ -26,6 +26,10 @@ WithDtype(r, f) == IF r.ok THEN [dtype |-> IF IsPredicate(f) THEN "bool" ELSE IF
 \* the source indices of the listed result indices, concatenated
 SliceSrcIndices(shape, parts, at) ==
     LET d == Len(shape) IN [m \in 1..(Len(at) * d) |-> SliceSrcIndex(shape, parts, at[((m - 1) \div d) + 1])[((m - 1) % d) + 1]]
+\* C07, real-valued functions: the scalar function is uninterpreted, its table on the operand values comes with the event
+TabLookup1(tab, k) == LET i == CHOOSE i \in 1..Len(tab) : tab[i].k = k IN tab[i].v
+TabLookup2(tab, k, j) == LET i == CHOOSE i \in 1..Len(tab) : tab[i].k = k /\ tab[i].j = j IN tab[i].v
+WithTol(e, r) == IF e.args.mode = "approx" /\ r.ok THEN [tol |-> e.args.tol] @@ r ELSE r
 \* the meaning of one operation event applied to the first operand value a (programs thread intermediate values through it)
 RECURSIVE RunProg(_, _, _)
 ExpectWith(e, a) ==
@@ -60,6 +64,12 @@ ExpectWith(e, a) ==
       [] e.op = "diagflat" -> DiagFlat(a, e.args.k)
       [] e.op = "tril" -> Tril(a, e.args.k)
       [] e.op = "triu" -> Triu(a, e.args.k)
+      [] e.op = "fufunc" -> WithTol(e,
+            IF Len(e.shapes) = 1 THEN [ok |-> TRUE, shape |-> a.shape, elems |-> [q \in 1..Len(a.elems) |-> TabLookup1(e.args.tab, a.elems[q])]]
+            ELSE LET r == BShapeN(e.shapes) IN
+                 IF ~r[1] THEN Nothing
+                 ELSE LET x == BroadcastTo(a, r[2])  y == BroadcastTo(Operand(e, 2), r[2])
+                      IN [ok |-> TRUE, shape |-> r[2], elems |-> [q \in 1..Len(x.elems) |-> TabLookup2(e.args.tab, x.elems[q], y.elems[q])]])
       [] e.op = "where" -> LET r == BShapeN(e.shapes) IN
             IF ~r[1] THEN Nothing
             ELSE LET cnd == BroadcastTo(a, r[2])  x == BroadcastTo(Operand(e, 2), r[2])  y == BroadcastTo(Operand(e, 3), r[2])
